@@ -83,4 +83,682 @@ theorem chunkStep_mkChunk (c : Cfg) (hc : c.OK) (wf : Bool) (blk i typ : Nat) (p
   rcases htyp with h | h | h | h <;> subst h <;>
     simp [hsOf, wireOf, posOf, hp.1, hp.2, hcrc, h1, h2, h3]
 
+
+theorem zeros_length (n : Nat) : (zeros n).length = n := by simp [zeros]
+
+theorem rdHd_zeros (k : Nat) (t : List UInt8) (h : 7 ≤ k) : rdHd (zeros k ++ t) = some ⟨0, 0, 0⟩ := by
+  obtain ⟨m, rfl⟩ : ∃ m, k = m + 7 := ⟨k - 7, by omega⟩
+  simp [zeros, List.replicate_succ, rdHd]
+
+/-- zero padding at the end of a block (7 to 10 bytes: a zeroed header in which no real one fits) -/
+theorem chunkStep_zeropad (c : Cfg) (wf : Bool) (blk i k : Nat) (t : List UInt8)
+    (hk : 7 ≤ k) (hk' : k < 11) (hi : i + k = c.B) :
+    chunkStep c wf { blk := blk, i := i, s := zeros k ++ t, started := true } =
+      .cont { blk := blk, i := c.B, s := t, started := true } := by
+  have ha : avail c { blk := blk, i := i, s := zeros k ++ t, started := true } = k := by
+    simp [avail, zeros_length]; omega
+  unfold chunkStep RS.skipBlock
+  simp only [ha, rdHd_zeros k t hk]
+  have h1 : 7 ≤ k := hk
+  simp [h1, hk', zeros_length, ← hi]
+
+/-- the end of a full block (fewer than 7 bytes left, zero padding or nothing): the next block is read -/
+theorem chunkStep_readfull (c : Cfg) (wf : Bool) (blk i k : Nat) (x : UInt8) (t : List UInt8)
+    (hk : k < 7) (hi : i + k = c.B) :
+    chunkStep c wf { blk := blk, i := i, s := zeros k ++ x :: t, started := true } =
+      .cont { blk := blk + c.B, i := 0, s := x :: t, started := true } := by
+  have ha : avail c { blk := blk, i := i, s := zeros k ++ x :: t, started := true } = k := by
+    simp [avail, zeros_length]; omega
+  unfold chunkStep
+  simp only [ha]
+  have h1 : ¬ 7 ≤ k := by omega
+  have h2 : ¬ i + k < c.B := by omega
+  simp [h1, h2, zeros_length]
+
+/-- … and when the file ends there: a clean end for `Next`, an unexpected one inside a record -/
+theorem chunkStep_fileend (c : Cfg) (wf : Bool) (blk i k : Nat) (hk : k < 7) (hi : i + k = c.B) :
+    chunkStep c wf { blk := blk, i := i, s := zeros k, started := true } =
+      (if wf then .eof else .invalid) := by
+  have ha : avail c { blk := blk, i := i, s := zeros k, started := true } = k := by
+    simp [avail, zeros_length]; omega
+  unfold chunkStep
+  simp only [ha]
+  have h1 : ¬ 7 ≤ k := by omega
+  have h2 : ¬ i + k < c.B := by omega
+  cases wf <;> simp [h1, h2, zeros_length]
+
+/-- the first block -/
+theorem chunkStep_start (c : Cfg) (wf : Bool) (x : UInt8) (t : List UInt8) :
+    chunkStep c wf { s := x :: t } = .cont { blk := 0, i := 0, s := x :: t, started := true } := by
+  simp [chunkStep, avail]
+
+theorem chunkStep_start_empty (c : Cfg) (wf : Bool) :
+    chunkStep c wf { s := [] } = (if wf then .eof else .invalid) := by
+  cases wf <;> simp [chunkStep, avail]
+
+/-! ### fuel -/
+
+theorem nextChunk_succ (c : Cfg) (wf : Bool) :
+    ∀ (f : Nat) (r : RS), nextChunk c wf f r ≠ .error .fuel → nextChunk c wf (f + 1) r = nextChunk c wf f r := by
+  intro f
+  induction f with
+  | zero => intro r h; simp [nextChunk] at h
+  | succ f ih =>
+    intro r h
+    rw [nextChunk] at h ⊢
+    cases hs : chunkStep c wf r with
+    | done r' pl last => simp [nextChunk, hs]
+    | eof => simp [nextChunk, hs]
+    | invalid => simp [nextChunk, hs]
+    | cont r' =>
+      rw [hs] at h
+      simp only at h ⊢
+      rw [ih r' h]
+      simp [nextChunk, hs]
+
+theorem nextChunk_mono (c : Cfg) (wf : Bool) (f g : Nat) (r : RS) (hfg : f ≤ g)
+    (h : nextChunk c wf f r ≠ .error .fuel) : nextChunk c wf g r = nextChunk c wf f r := by
+  induction g with
+  | zero =>
+    have : f = 0 := by omega
+    subst this; rfl
+  | succ g ih =>
+    by_cases hf : f = g + 1
+    · subst hf; rfl
+    · have hle : f ≤ g := by omega
+      have e := ih hle
+      rw [← e] at h
+      rw [nextChunk_succ c wf g r h, e]
+
+
+/-- the measure that every `continue` of `nextChunk` decreases -/
+def mu (r : RS) : Nat := 2 * r.s.length + (if r.started ∧ r.i = 0 then 0 else 1)
+
+theorem avail_le (c : Cfg) (r : RS) : avail c r ≤ r.s.length := by
+  unfold avail; split <;> simp [List.length_take]; omega
+
+theorem hsOf_ge (enc : Nat) (h0 : enc ≠ 0) (h13 : ¬ 13 ≤ enc) : 7 ≤ hsOf enc := by
+  have : enc = 1 ∨ enc = 2 ∨ enc = 3 ∨ enc = 4 ∨ enc = 5 ∨ enc = 6 ∨ enc = 7 ∨ enc = 8 ∨ enc = 9 ∨ enc = 10 ∨
+      enc = 11 ∨ enc = 12 := by omega
+  rcases this with h | h | h | h | h | h | h | h | h | h | h | h <;> subst h <;> simp [hsOf, wireOf]
+
+/-- what a `continue` of `nextChunk` does to the reader: it passes over at least 7 bytes of the block
+(a zeroed header, a chunk that does not start a record), or it reads the next block -/
+theorem chunkStep_cont_inv (c : Cfg) (wf : Bool) (r r' : RS) (h : chunkStep c wf r = .cont r') :
+    (∃ n, 7 ≤ n ∧ n ≤ avail c r ∧ r' = { r with i := r.i + n, s := r.s.drop n }) ∨
+    (avail c r < 7 ∧ ¬ (r.started = true ∧ r.i + avail c r < c.B) ∧
+      r' = { blk := if r.started then r.blk + c.B else 0, i := 0, s := r.s.drop (avail c r), started := true }) := by
+  unfold chunkStep at h
+  simp only [] at h
+  by_cases h7 : 7 ≤ avail c r
+  · simp only [h7, ↓reduceIte] at h
+    cases hh : rdHd r.s with
+    | none => simp [hh] at h
+    | some hd =>
+      simp only [hh] at h
+      by_cases h13 : 13 ≤ hd.enc
+      · simp [h13] at h
+      simp only [h13, ↓reduceIte] at h
+      by_cases hz : hd.checksum = 0 ∧ hd.length = 0 ∧ hd.enc = 0
+      · simp only [hz, and_self, ↓reduceIte] at h
+        have hskip : (∃ n, 7 ≤ n ∧ n ≤ avail c r ∧ r.skipBlock c = { r with i := r.i + n, s := r.s.drop n }) :=
+          ⟨avail c r, h7, Nat.le_refl _, rfl⟩
+        by_cases h11 : avail c r < 11
+        · simp only [h11, ↓reduceIte, Step.cont.injEq] at h
+          subst h; exact Or.inl hskip
+        · simp only [h11, ↓reduceIte] at h
+          by_cases h19 : avail c r < 19
+          · simp only [h19, ↓reduceIte] at h
+            split at h
+            · simp only [Step.cont.injEq] at h
+              subst h; exact Or.inl hskip
+            · simp at h
+          · simp [h19] at h
+      · simp only [hz, ↓reduceIte] at h
+        by_cases h0 : hd.enc = 0
+        · simp [h0] at h
+        simp only [h0, ↓reduceIte] at h
+        have hhs := hsOf_ge hd.enc h0 h13
+        split at h
+        · simp at h
+        · split at h
+          · split at h <;> simp at h
+          · split at h
+            · simp at h
+            · rename_i hlen
+              split at h
+              · simp at h
+              · split at h
+                · simp only [Step.cont.injEq] at h
+                  subst h
+                  refine Or.inl ⟨hsOf hd.enc + hd.length, by omega, by omega, ?_⟩
+                  simp [Nat.add_assoc]
+                · simp at h
+  · simp only [h7, ↓reduceIte] at h
+    by_cases hsh : r.started = true ∧ r.i + avail c r < c.B
+    · simp only [hsh, and_self, ↓reduceIte] at h
+      split at h <;> simp at h
+    · simp only [hsh, ↓reduceIte] at h
+      split at h
+      · split at h <;> simp at h
+      · simp only [Step.cont.injEq] at h
+        subst h
+        exact Or.inr ⟨by omega, hsh, rfl⟩
+
+theorem mu_le (r : RS) : mu r ≤ 2 * r.s.length + 1 := by unfold mu; split <;> omega
+
+theorem chunkStep_cont_mu (c : Cfg) (hc : c.OK) (wf : Bool) (r r' : RS) (h : chunkStep c wf r = .cont r') :
+    mu r' < mu r := by
+  have hB := hc.lo
+  have hal := avail_le c r
+  rcases chunkStep_cont_inv c wf r r' h with ⟨n, h7, hn, rfl⟩ | ⟨h7, hsh, rfl⟩
+  · have := mu_le { r with i := r.i + n, s := r.s.drop n }
+    have h2 : 2 * r.s.length ≤ mu r := by unfold mu; omega
+    simp only [List.length_drop] at this
+    omega
+  · have h1 : mu { blk := if r.started then r.blk + c.B else 0, i := 0, s := r.s.drop (avail c r), started := true }
+        = 2 * (r.s.length - avail c r) := by simp [mu]
+    rw [h1]
+    by_cases hst : r.started = true ∧ r.i = 0
+    · exfalso
+      apply hsh
+      refine ⟨hst.1, ?_⟩
+      unfold avail at h7 ⊢
+      simp only [hst.1, ↓reduceIte, List.length_take, hst.2] at h7 ⊢
+      omega
+    · have : mu r = 2 * r.s.length + 1 := by simp [mu, hst]
+      omega
+
+theorem nextChunk_fuel_ok (c : Cfg) (hc : c.OK) (wf : Bool) :
+    ∀ (f : Nat) (r : RS), mu r < f → nextChunk c wf f r ≠ .error .fuel := by
+  intro f
+  induction f with
+  | zero => intro r h; omega
+  | succ f ih =>
+    intro r h
+    rw [nextChunk]
+    cases hs : chunkStep c wf r with
+    | done r' pl last => simp
+    | eof => simp
+    | invalid => simp
+    | cont r' =>
+      have := chunkStep_cont_mu c hc wf r r' hs
+      exact ih r' (by omega)
+
+
+/-! ### `nextChunk` without fuel bookkeeping -/
+
+/-- the value of `nextChunk` for any sufficient fuel -/
+def NCv (c : Cfg) (wf : Bool) (r : RS) : Except CErr (RS × List UInt8 × Bool) := nextChunk c wf (mu r + 1) r
+
+theorem nextChunk_eq_NCv (c : Cfg) (hc : c.OK) (wf : Bool) (f : Nat) (r : RS) (h : mu r < f) :
+    nextChunk c wf f r = NCv c wf r :=
+  nextChunk_mono c wf (mu r + 1) f r (by omega) (nextChunk_fuel_ok c hc wf (mu r + 1) r (by omega))
+
+theorem nextChunk_deffuel (c : Cfg) (hc : c.OK) (wf : Bool) (r : RS) :
+    nextChunk c wf (2 * r.s.length + 3) r = NCv c wf r :=
+  nextChunk_eq_NCv c hc wf _ r (by have := mu_le r; omega)
+
+theorem NCv_cont (c : Cfg) (hc : c.OK) (wf : Bool) (r r' : RS) (h : chunkStep c wf r = .cont r') :
+    NCv c wf r = NCv c wf r' := by
+  have hm := chunkStep_cont_mu c hc wf r r' h
+  unfold NCv
+  rw [nextChunk, h]
+  exact nextChunk_eq_NCv c hc wf (mu r) r' hm
+
+theorem NCv_done (c : Cfg) (wf : Bool) (r r' : RS) (pl : List UInt8) (last : Bool)
+    (h : chunkStep c wf r = .done r' pl last) : NCv c wf r = .ok (r', pl, last) := by
+  unfold NCv; rw [nextChunk, h]
+
+theorem NCv_eof (c : Cfg) (wf : Bool) (r : RS) (h : chunkStep c wf r = .eof) : NCv c wf r = .error .eof := by
+  unfold NCv; rw [nextChunk, h]
+
+theorem NCv_invalid (c : Cfg) (wf : Bool) (r : RS) (h : chunkStep c wf r = .invalid) :
+    NCv c wf r = .error .invalid := by
+  unfold NCv; rw [nextChunk, h]
+
+/-- the reader inside a block: `blk` = offset of the block, `i` = offset in it, `t` = the file from there -/
+def RAt (blk i : Nat) (t : List UInt8) : RS := { blk := blk, i := i, s := t, started := true }
+
+def endErr (wf : Bool) : CErr := if wf then .eof else .invalid
+
+theorem NCv_chunk (c : Cfg) (hc : c.OK) (wf : Bool) (blk i typ : Nat) (pl t : List UInt8)
+    (htyp : typ = 5 ∨ typ = 6 ∨ typ = 7 ∨ typ = 8) (hfit : i + 11 + pl.length ≤ c.B) :
+    NCv c wf (RAt blk i (mkChunk c typ c.logNum pl ++ t)) =
+      if wf ∧ (typ = 7 ∨ typ = 8) then NCv c wf (RAt blk (i + 11 + pl.length) t)
+      else .ok (RAt blk (i + 11 + pl.length) t, pl, typ = 5 ∨ typ = 8) := by
+  have h := chunkStep_mkChunk c hc wf blk i typ pl t htyp hfit
+  split
+  · rename_i hw
+    rw [if_pos hw] at h
+    exact NCv_cont c hc wf _ _ h
+  · rename_i hw
+    rw [if_neg hw] at h
+    exact NCv_done c wf _ _ _ _ h
+
+/-- zero padding up to the end of the block, then more of the file: the reader moves to the next block -/
+theorem NCv_pad (c : Cfg) (hc : c.OK) (wf : Bool) (blk i k : Nat) (x : UInt8) (t : List UInt8)
+    (hk : k < 11) (hi : i + k = c.B) :
+    NCv c wf (RAt blk i (zeros k ++ x :: t)) = NCv c wf (RAt (blk + c.B) 0 (x :: t)) := by
+  by_cases h7 : 7 ≤ k
+  · rw [RAt, NCv_cont c hc wf _ _ (chunkStep_zeropad c wf blk i k (x :: t) h7 hk hi)]
+    have := chunkStep_readfull c wf blk c.B 0 x t (by omega) (by omega)
+    simp only [zeros, List.replicate_zero, List.nil_append] at this
+    rw [NCv_cont c hc wf _ _ this]; rfl
+  · rw [RAt, NCv_cont c hc wf _ _ (chunkStep_readfull c wf blk i k x t (by omega) hi)]; rfl
+
+/-- … and nothing more: the file ends on a block boundary -/
+theorem NCv_pad_end (c : Cfg) (hc : c.OK) (wf : Bool) (blk i k : Nat) (hk : k < 11) (hi : i + k = c.B) :
+    NCv c wf (RAt blk i (zeros k)) = .error (endErr wf) := by
+  have hend : NCv c wf (RAt blk c.B (zeros 0)) = .error (endErr wf) := by
+    have := chunkStep_fileend c wf blk c.B 0 (by omega) (by omega)
+    cases wf
+    · simp only [Bool.false_eq_true, ↓reduceIte] at this
+      exact NCv_invalid c false _ this
+    · simp only [↓reduceIte] at this
+      exact NCv_eof c true _ this
+  by_cases h7 : 7 ≤ k
+  · have := chunkStep_zeropad c wf blk i k [] h7 hk hi
+    simp only [List.append_nil] at this
+    rw [RAt, NCv_cont c hc wf _ _ this]
+    exact hend
+  · have := chunkStep_fileend c wf blk i k (by omega) hi
+    cases wf
+    · simp only [Bool.false_eq_true, ↓reduceIte] at this
+      exact NCv_invalid c false _ this
+    · simp only [↓reduceIte] at this
+      exact NCv_eof c true _ this
+
+theorem NCv_start (c : Cfg) (hc : c.OK) (wf : Bool) (x : UInt8) (t : List UInt8) :
+    NCv c wf { s := x :: t } = NCv c wf (RAt 0 0 (x :: t)) :=
+  NCv_cont c hc wf _ _ (chunkStep_start c wf x t)
+
+theorem NCv_start_empty (c : Cfg) (wf : Bool) : NCv c wf { s := [] } = .error (endErr wf) := by
+  have := chunkStep_start_empty c wf
+  cases wf
+  · simp only [Bool.false_eq_true, ↓reduceIte] at this
+    exact NCv_invalid c false _ this
+  · simp only [↓reduceIte] at this
+    exact NCv_eof c true _ this
+
+/-- the file ends inside a block after `k` bytes of zero padding (`k = 0`: right behind a chunk) -/
+theorem NCv_short_zeros (c : Cfg) (hc : c.OK) (wf : Bool) (blk i k : Nat) (hk : k < 11) (hi : i + k < c.B) :
+    NCv c wf (RAt blk i (zeros k)) = .error (if wf ∧ (k = 0 ∨ 7 ≤ k) then .eof else .invalid) := by
+  have hshort : ∀ j, j < c.B → NCv c wf (RAt blk j []) = .error (endErr wf) := by
+    intro j hj
+    have : chunkStep c wf (RAt blk j []) = (if wf then .eof else .invalid) := by
+      cases wf <;> simp [chunkStep, avail, RAt, hj]
+    cases wf
+    · simp only [Bool.false_eq_true, ↓reduceIte] at this
+      exact NCv_invalid c false _ this
+    · simp only [↓reduceIte] at this
+      exact NCv_eof c true _ this
+  by_cases h7 : 7 ≤ k
+  · -- a zeroed header that no real header could follow: skipped, then the short block ends
+    have ha : avail c (RAt blk i (zeros k)) = k := by simp [avail, RAt, zeros_length]; omega
+    have hstep : chunkStep c wf (RAt blk i (zeros k)) = .cont (RAt blk (i + k) []) := by
+      unfold chunkStep RS.skipBlock
+      simp only [ha]
+      have := rdHd_zeros k [] h7
+      simp only [List.append_nil] at this
+      simp only [RAt, this]
+      simp [h7, hk, zeros_length]
+    rw [NCv_cont c hc wf _ _ hstep, hshort (i + k) hi]
+    cases wf <;> simp [endErr, h7]
+  · by_cases h0 : k = 0
+    · subst h0
+      simp only [zeros, List.replicate_zero]
+      rw [hshort i (by omega)]
+      cases wf <;> simp [endErr]
+    · have ha : avail c (RAt blk i (zeros k)) = k := by simp [avail, RAt, zeros_length]; omega
+      have hstep : chunkStep c wf (RAt blk i (zeros k)) = .invalid := by
+        unfold chunkStep
+        simp only [ha]
+        have h1 : ¬ 7 ≤ k := h7
+        have h2 : i + k < c.B := hi
+        simp [h1, h2, h0, RAt]
+      rw [NCv_invalid c wf _ hstep]
+      have : ¬ (k = 0 ∨ 7 ≤ k) := by omega
+      simp [this]
+
+
+/-- the file ends inside a chunk: whatever part of it is there, the reader reports the end of the log
+(a clean end only when nothing of the chunk is there and a new record was asked for) -/
+theorem NCv_torn_chunk (c : Cfg) (hc : c.OK) (wf : Bool) (blk i typ j : Nat) (pl : List UInt8)
+    (htyp : typ = 5 ∨ typ = 6 ∨ typ = 7 ∨ typ = 8) (hfit : i + 11 + pl.length ≤ c.B) (hj : j < 11 + pl.length) :
+    NCv c wf (RAt blk i ((mkChunk c typ c.logNum pl).take j)) = .error (if wf ∧ j = 0 then .eof else .invalid) := by
+  have hB := hc.hi
+  have hl : pl.length < 65536 := by omega
+  have ht : typ < 256 := by omega
+  have hlen : ((mkChunk c typ c.logNum pl).take j).length = j := by
+    rw [List.length_take, mkChunk_length]; omega
+  have ha : avail c (RAt blk i ((mkChunk c typ c.logNum pl).take j)) = j := by
+    simp only [avail, RAt, ↓reduceIte, List.length_take, hlen]; omega
+  by_cases h7 : 7 ≤ j
+  · -- the header is there: a recyclable chunk that does not fit what is left of the file
+    have hhd : rdHd ((mkChunk c typ c.logNum pl).take j) =
+        some ⟨c.crc (by8 typ :: (le32 c.logNum ++ pl)), pl.length, typ⟩ := by
+      have := rdHd_mkChunk c hc typ c.logNum pl [] ht hl
+      rw [List.append_nil] at this
+      rw [← this, mkChunk_eq]
+      obtain ⟨m, rfl⟩ : ∃ m, j = m + 7 := ⟨j - 7, by omega⟩
+      simp [rdHd]
+    have hstep : chunkStep c wf (RAt blk i ((mkChunk c typ c.logNum pl).take j)) = .invalid := by
+      unfold chunkStep
+      simp only [ha]
+      simp only [RAt, hhd]
+      by_cases h11 : j < 11
+      · rcases htyp with h | h | h | h <;> subst h <;> simp [hsOf, wireOf, h7, h11]
+      · have hln : rdLogNum ((mkChunk c typ c.logNum pl).take j) = c.logNum := by
+          have h32 := hc.ln
+          unfold two32 at h32
+          obtain ⟨m, rfl⟩ : ∃ m, j = m + 11 := ⟨j - 11, by omega⟩
+          rw [mkChunk_eq]
+          simp only [List.take_succ_cons, rdLogNum, List.drop_succ_cons, List.drop_zero, by8_val]
+          omega
+        rcases htyp with h | h | h | h <;> subst h <;> simp [hsOf, wireOf, h7, h11, hln, hj]
+    rw [NCv_invalid c wf _ hstep]
+    have : ¬ j = 0 := by omega
+    simp [this]
+  · -- fewer than 7 bytes: the last block is short
+    have hstep : chunkStep c wf (RAt blk i ((mkChunk c typ c.logNum pl).take j)) =
+        (if wf ∧ j = 0 then .eof else .invalid) := by
+      unfold chunkStep
+      simp only [ha]
+      have h2 : i + j < c.B := by omega
+      simp [h7, h2, RAt]
+    by_cases hw : wf = true ∧ j = 0
+    · rw [if_pos hw] at hstep; rw [NCv_eof c wf _ hstep]; simp [hw]
+    · rw [if_neg hw] at hstep; rw [NCv_invalid c wf _ hstep]; simp [hw]
+
+
+/-! ### the reader follows the writer -/
+
+/-- The reader `R` stands where the writer, at offset `wi` of its block and `pos` bytes into the file, goes
+on to write `t`: right there; or (the writer has zero-filled the rest of a block) before that padding; or
+it has not read anything yet. -/
+def Sync (c : Cfg) (pos wi : Nat) (t : List UInt8) (R : RS) : Prop :=
+  (∃ blk, R = RAt blk wi t ∧ blk + wi = pos) ∨
+  (wi = 0 ∧ ∃ b j k, k < 11 ∧ j + k = c.B ∧ b + c.B = pos ∧ R = RAt b j (zeros k ++ t)) ∨
+  (wi = 0 ∧ pos = 0 ∧ R = { s := t })
+
+theorem Sync_NCv (c : Cfg) (hc : c.OK) (wf : Bool) (pos wi : Nat) (x : UInt8) (t : List UInt8) (R : RS)
+    (h : Sync c pos wi (x :: t) R) : NCv c wf R = NCv c wf (RAt (pos - wi) wi (x :: t)) := by
+  rcases h with ⟨blk, rfl, hp⟩ | ⟨rfl, b, j, k, hk, hj, hp, rfl⟩ | ⟨rfl, rfl, rfl⟩
+  · have : pos - wi = blk := by omega
+    rw [this]
+  · rw [NCv_pad c hc wf b j k x t hk hj]
+    have : pos - 0 = b + c.B := by omega
+    rw [this]
+  · exact NCv_start c hc wf x t
+
+theorem Sync_end (c : Cfg) (hc : c.OK) (wf : Bool) (pos wi : Nat) (R : RS) (h : Sync c pos wi [] R)
+    (hwi : wi + 11 ≤ c.B) : NCv c wf R = .error (endErr wf) := by
+  rcases h with ⟨blk, rfl, _⟩ | ⟨rfl, b, j, k, hk, hj, _, rfl⟩ | ⟨rfl, rfl, rfl⟩
+  · have := NCv_short_zeros c hc wf blk wi 0 (by omega) (by omega)
+    simp only [zeros, List.replicate_zero, true_or, and_true] at this
+    rw [this]; cases wf <;> simp [endErr]
+  · rw [List.append_nil]; exact NCv_pad_end c hc wf b j k hk hj
+  · exact NCv_start_empty c wf
+
+theorem Sync_offset (c : Cfg) (pos wi : Nat) (t : List UInt8) (R : RS) (h : Sync c pos wi t R) :
+    R.offset ≤ pos ∧ pos - R.offset < 11 ∧ R.s = zeros (pos - R.offset) ++ t := by
+  rcases h with ⟨blk, rfl, hp⟩ | ⟨rfl, b, j, k, hk, hj, hp, rfl⟩ | ⟨rfl, rfl, rfl⟩
+  · have : pos - (blk + wi) = 0 := by omega
+    simp [RAt, RS.offset, this, zeros]; omega
+  · have : pos - (b + j) = k := by omega
+    simp [RAt, RS.offset, this]; omega
+  · simp [RS.offset, zeros]
+
+theorem chunkType_mem (f l : Bool) :
+    chunkType f l = 5 ∨ chunkType f l = 6 ∨ chunkType f l = 7 ∨ chunkType f l = 8 := by
+  cases f <;> cases l <;> simp [chunkType]
+
+theorem chunkType_last (f l : Bool) : decide (chunkType f l = 5 ∨ chunkType f l = 8) = l := by
+  cases f <;> cases l <;> simp [chunkType]
+
+theorem chunkType_first (l : Bool) : ¬ (chunkType true l = 7 ∨ chunkType true l = 8) := by
+  cases l <;> simp [chunkType]
+
+/-- how much fuel `emitLoop` needs: two fragments take at least one byte of the record -/
+def need (c : Cfg) (i : Nat) (p : List UInt8) : Nat := 2 * p.length + (if c.B - i - 11 = 0 then 1 else 0)
+
+/-- the state of the reader after the last chunk of a record, in front of whatever follows (`u`) -/
+structure After (c : Cfg) (i' j kp : Nat) : Prop where
+  pad : (kp = 0 ∧ j = i') ∨ (kp < 11 ∧ j + kp = c.B ∧ i' = 0)
+  fit : i' + 11 ≤ c.B
+  jle : j ≤ c.B
+
+
+theorem mkChunk_cons (c : Cfg) (typ ln : Nat) (pl : List UInt8) : ∃ x t, mkChunk c typ ln pl = x :: t := by
+  rw [mkChunk_eq]; exact ⟨_, _, rfl⟩
+
+/-- one fragment, read back: the reader hands out its payload and stands behind the chunk -/
+theorem frag_read (c : Cfg) (hc : c.OK) (first : Bool) (pos i : Nat) (p u : List UInt8) (R : RS)
+    (hi : i + 11 ≤ c.B)
+    (hs : Sync c pos i (mkChunk c (chunkType first (decide (p.length ≤ c.B - i - 11))) c.logNum
+      (p.take (min (c.B - i - 11) p.length)) ++ u) R) :
+    NCv c first R = .ok (RAt (pos - i) (i + 11 + min (c.B - i - 11) p.length) u,
+      p.take (min (c.B - i - 11) p.length), decide (p.length ≤ c.B - i - 11)) := by
+  obtain ⟨x, t, hx⟩ := mkChunk_cons c (chunkType first (decide (p.length ≤ c.B - i - 11))) c.logNum
+    (p.take (min (c.B - i - 11) p.length))
+  have hs' := hs
+  rw [hx, List.cons_append] at hs'
+  rw [Sync_NCv c hc first pos i x (t ++ u) R hs', ← List.cons_append, ← hx]
+  have hlen : (p.take (min (c.B - i - 11) p.length)).length = min (c.B - i - 11) p.length := by
+    rw [List.length_take]; omega
+  rw [NCv_chunk c hc first (pos - i) i _ _ u (chunkType_mem _ _) (by rw [hlen]; omega)]
+  have hnf : ¬ (first = true ∧ (chunkType first (decide (p.length ≤ c.B - i - 11)) = 7 ∨
+      chunkType first (decide (p.length ≤ c.B - i - 11)) = 8)) := by
+    intro h
+    have h1 := h.1
+    subst h1
+    exact chunkType_first _ h.2
+  rw [if_neg hnf, hlen, chunkType_last]
+
+
+theorem Sync_le (c : Cfg) (pos wi : Nat) (t : List UInt8) (R : RS) (h : Sync c pos wi t R) : wi ≤ pos := by
+  rcases h with ⟨blk, _, hp⟩ | ⟨rfl, _⟩ | ⟨rfl, _⟩ <;> omega
+
+/-- `emitFragment`, spelled out -/
+theorem emitFragment_eq (c : Cfg) (i : Nat) (first : Bool) (p : List UInt8) :
+    emitFragment c i first p =
+      if c.B - (i + 11 + min (c.B - i - 11) p.length) < 11 then
+        (mkChunk c (chunkType first (decide (p.length ≤ c.B - i - 11))) c.logNum (p.take (min (c.B - i - 11) p.length)) ++
+          zeros (c.B - (i + 11 + min (c.B - i - 11) p.length)), 0, p.drop (min (c.B - i - 11) p.length))
+      else
+        (mkChunk c (chunkType first (decide (p.length ≤ c.B - i - 11))) c.logNum (p.take (min (c.B - i - 11) p.length)),
+          i + 11 + min (c.B - i - 11) p.length, p.drop (min (c.B - i - 11) p.length)) := rfl
+
+/-- the reader state behind a fragment is in step with the writer's next position -/
+theorem Sync_after_frag (c : Cfg) (pos i r : Nat) (t : List UInt8) (hi : i ≤ pos) (hr : i + 11 + r ≤ c.B) :
+    (c.B - (i + 11 + r) < 11 →
+      Sync c (pos + (11 + r + (c.B - (i + 11 + r)))) 0 t (RAt (pos - i) (i + 11 + r) (zeros (c.B - (i + 11 + r)) ++ t))) ∧
+    (¬ c.B - (i + 11 + r) < 11 → Sync c (pos + (11 + r)) (i + 11 + r) t (RAt (pos - i) (i + 11 + r) t)) := by
+  constructor
+  · intro h
+    exact Or.inr (Or.inl ⟨rfl, pos - i, i + 11 + r, c.B - (i + 11 + r), h, by omega, by omega, rfl⟩)
+  · intro _
+    exact Or.inl ⟨pos - i, rfl, by omega⟩
+
+/-- the file ends inside the chunk the reader is about to read (or right before it) -/
+theorem torn_first (c : Cfg) (hc : c.OK) (wf : Bool) (pos i typ jcut : Nat) (pl : List UInt8) (R : RS)
+    (htyp : typ = 5 ∨ typ = 6 ∨ typ = 7 ∨ typ = 8) (hfit : i + 11 + pl.length ≤ c.B) (hj : jcut < 11 + pl.length)
+    (hs : Sync c pos i ((mkChunk c typ c.logNum pl).take jcut) R) :
+    NCv c wf R = .error (if wf ∧ jcut = 0 then .eof else .invalid) := by
+  cases jcut with
+  | zero =>
+    rw [List.take_zero] at hs
+    rw [Sync_end c hc wf pos i R hs (by omega)]
+    cases wf <;> simp [endErr]
+  | succ n =>
+    obtain ⟨x, t, hx⟩ := mkChunk_cons c typ c.logNum pl
+    have hs' := hs
+    rw [hx, List.take_succ_cons] at hs'
+    rw [Sync_NCv c hc wf pos i x _ R hs', ← List.take_succ_cons, ← hx]
+    exact NCv_torn_chunk c hc wf (pos - i) i typ (n + 1) pl htyp hfit hj
+
+theorem take_zeros (k n : Nat) : (zeros n).take k = zeros (min k n) := by
+  simp [zeros, List.take_replicate]
+
+/-- the fragments after the first one of a record, read back by `singleReader.Read` -/
+theorem loop_more (c : Cfg) (hc : c.OK) : ∀ (fuel i : Nat) (p : List UInt8), i + 11 ≤ c.B → need c i p < fuel → p ≠ [] →
+    ∃ C kp j, (emitLoop c fuel i false p).1 = C ++ zeros kp ∧ After c (emitLoop c fuel i false p).2 j kp ∧
+      11 ≤ C.length ∧
+      ∀ (u acc : List UInt8) (pos : Nat) (R : RS) (F : Nat), Sync c pos i (C ++ u) R → C.length < 11 * F →
+        readMore c F R acc = .ok (RAt (pos + C.length - j) j u, acc ++ p) := by
+  intro fuel
+  induction fuel with
+  | zero => intro i p _ h _; omega
+  | succ fuel ih =>
+    intro i p hi hneed hp
+    have hB := hc.lo
+    have hlen : (p.take (min (c.B - i - 11) p.length)).length = min (c.B - i - 11) p.length := by
+      rw [List.length_take]; omega
+    have hclen := mkChunk_length c (chunkType false (decide (p.length ≤ c.B - i - 11))) c.logNum
+      (p.take (min (c.B - i - 11) p.length))
+    rw [hlen] at hclen
+    by_cases hlast : p.length ≤ c.B - i - 11
+    · -- the last fragment
+      have hr : min (c.B - i - 11) p.length = p.length := by omega
+      have hdrop : p.drop (min (c.B - i - 11) p.length) = [] := by rw [hr]; simp
+      have hread : ∀ (u acc : List UInt8) (pos : Nat) (R : RS) (F : Nat),
+          Sync c pos i (mkChunk c (chunkType false (decide (p.length ≤ c.B - i - 11))) c.logNum
+            (p.take (min (c.B - i - 11) p.length)) ++ u) R → 11 + p.length < 11 * F →
+          readMore c F R acc = .ok (RAt (pos + (11 + p.length) - (i + 11 + p.length)) (i + 11 + p.length) u, acc ++ p) := by
+        intro u acc pos R F hs hF
+        obtain ⟨F', rfl⟩ : ∃ F', F = F' + 1 := ⟨F - 1, by omega⟩
+        have hle := Sync_le c pos i _ R hs
+        rw [readMore, nextChunk_deffuel c hc, frag_read c hc false pos i p u R hi hs]
+        simp only [hlast, decide_true, ↓reduceIte, hr, List.take_length]
+        have : pos + (11 + p.length) - (i + 11 + p.length) = pos - i := by omega
+        rw [this]
+      rw [emitLoop, emitFragment_eq]
+      by_cases hpad : c.B - (i + 11 + min (c.B - i - 11) p.length) < 11
+      · simp only [hpad, ↓reduceIte, hdrop, List.isEmpty_nil]
+        refine ⟨_, _, i + 11 + p.length, rfl, ⟨Or.inr ⟨hpad, ?_, rfl⟩, by omega, by omega⟩, by omega, ?_⟩
+        · rw [hr]; omega
+        · intro u acc pos R F hs hF
+          rw [hclen, hr] at hF
+          rw [hclen, hr]
+          exact hread u acc pos R F hs hF
+      · simp only [hpad, ↓reduceIte, hdrop, List.isEmpty_nil]
+        refine ⟨mkChunk c (chunkType false (decide (p.length ≤ c.B - i - 11))) c.logNum (p.take (min (c.B - i - 11) p.length)),
+          0, i + 11 + p.length, by simp [zeros], ⟨Or.inl ⟨rfl, by rw [hr]⟩, by rw [hr]; omega, by omega⟩, by omega, ?_⟩
+        intro u acc pos R F hs hF
+        rw [hclen, hr] at hF
+        rw [hclen, hr]
+        exact hread u acc pos R F hs hF
+    · -- more fragments follow
+      have hr : min (c.B - i - 11) p.length = c.B - i - 11 := by omega
+      have hdrop : p.drop (min (c.B - i - 11) p.length) ≠ [] := by
+        rw [hr]; intro h
+        have := congrArg List.length h
+        simp only [List.length_drop, List.length_nil] at this
+        omega
+      have hemp : (p.drop (min (c.B - i - 11) p.length)).isEmpty = false := by
+        cases h : p.drop (min (c.B - i - 11) p.length) with
+        | nil => exact absurd h hdrop
+        | cons _ _ => rfl
+      -- the block is full after this fragment: the next one starts a new block
+      have hpad : c.B - (i + 11 + min (c.B - i - 11) p.length) < 11 := by omega
+      have hneed' : need c 0 (p.drop (min (c.B - i - 11) p.length)) < fuel := by
+        unfold need at hneed ⊢
+        simp only [List.length_drop, hr]
+        split at hneed <;> split <;> omega
+      obtain ⟨C', kp', j', hC', hA', hC'len, hrd'⟩ := ih 0 (p.drop (min (c.B - i - 11) p.length)) (by omega) hneed' hdrop
+      rw [emitLoop, emitFragment_eq]
+      simp only [hpad, ↓reduceIte, hemp, Bool.false_eq_true]
+      refine ⟨mkChunk c (chunkType false (decide (p.length ≤ c.B - i - 11))) c.logNum (p.take (min (c.B - i - 11) p.length)) ++
+          zeros (c.B - (i + 11 + min (c.B - i - 11) p.length)) ++ C', kp', j', ?_, hA', ?_, ?_⟩
+      · rw [hC']; simp [List.append_assoc]
+      · simp only [List.length_append, hclen]; omega
+      · intro u acc pos R F hs hF
+        obtain ⟨F', rfl⟩ : ∃ F', F = F' + 1 := ⟨F - 1, by omega⟩
+        have hle := Sync_le c pos i _ R hs
+        simp only [List.append_assoc] at hs
+        rw [readMore, nextChunk_deffuel c hc, frag_read c hc false pos i p _ R hi hs]
+        simp only [hlast, decide_false, Bool.false_eq_true, ↓reduceIte]
+        have hsync := (Sync_after_frag c pos i (min (c.B - i - 11) p.length) (C' ++ u) hle (by omega)).1 hpad
+        simp only [List.length_append, mkChunk_length, hlen, zeros_length] at hF ⊢
+        rw [hrd' u (acc ++ p.take (min (c.B - i - 11) p.length)) _ _ F' hsync (by omega)]
+        simp only [List.append_assoc, List.take_append_drop]
+        congr 3
+        omega
+
+
+/-- a whole record, read back by `Reader.Next` + `Read`: whatever follows its last chunk (`u`) -/
+theorem rec_read (c : Cfg) (hc : c.OK) (i : Nat) (p : List UInt8) (hi : i + 11 ≤ c.B) :
+    ∃ C kp j, (emitRecord c i p).1 = C ++ zeros kp ∧ After c (emitRecord c i p).2 j kp ∧ 11 ≤ C.length ∧
+      ∀ (u : List UInt8) (pos : Nat) (R : RS), Sync c pos i (C ++ u) R →
+        readRecord c R = .ok (RAt (pos + C.length - j) j u, p) := by
+  have hB := hc.lo
+  have hlen : (p.take (min (c.B - i - 11) p.length)).length = min (c.B - i - 11) p.length := by
+    rw [List.length_take]; omega
+  unfold emitRecord
+  by_cases hlast : p.length ≤ c.B - i - 11
+  · have hr : min (c.B - i - 11) p.length = p.length := by omega
+    have hdrop : p.drop (min (c.B - i - 11) p.length) = [] := by rw [hr]; simp
+    have hread : ∀ (u : List UInt8) (pos : Nat) (R : RS),
+        Sync c pos i (mkChunk c (chunkType true (decide (p.length ≤ c.B - i - 11))) c.logNum
+          (p.take (min (c.B - i - 11) p.length)) ++ u) R →
+        readRecord c R = .ok (RAt (pos + (11 + p.length) - (i + 11 + p.length)) (i + 11 + p.length) u, p) := by
+      intro u pos R hs
+      have hle := Sync_le c pos i _ R hs
+      rw [readRecord, nextChunk_deffuel c hc, frag_read c hc true pos i p u R hi hs]
+      simp only [hlast, decide_true, ↓reduceIte, hr, List.take_length]
+      have : pos + (11 + p.length) - (i + 11 + p.length) = pos - i := by omega
+      rw [this]
+    rw [emitLoop, emitFragment_eq]
+    by_cases hpad : c.B - (i + 11 + min (c.B - i - 11) p.length) < 11
+    · simp only [hpad, ↓reduceIte, hdrop, List.isEmpty_nil]
+      refine ⟨_, _, i + 11 + p.length, rfl, ⟨Or.inr ⟨hpad, ?_, rfl⟩, by omega, by omega⟩, ?_, ?_⟩
+      · rw [hr]; omega
+      · rw [mkChunk_length]; omega
+      · intro u pos R hs
+        rw [mkChunk_length, hlen, hr]
+        exact hread u pos R hs
+    · simp only [hpad, ↓reduceIte, hdrop, List.isEmpty_nil]
+      refine ⟨mkChunk c (chunkType true (decide (p.length ≤ c.B - i - 11))) c.logNum (p.take (min (c.B - i - 11) p.length)),
+        0, i + 11 + p.length, by simp [zeros], ⟨Or.inl ⟨rfl, by rw [hr]⟩, by rw [hr]; omega, by omega⟩, ?_, ?_⟩
+      · rw [mkChunk_length]; omega
+      · intro u pos R hs
+        rw [mkChunk_length, hlen, hr]
+        exact hread u pos R hs
+  · have hr : min (c.B - i - 11) p.length = c.B - i - 11 := by omega
+    have hdrop : p.drop (min (c.B - i - 11) p.length) ≠ [] := by
+      rw [hr]; intro h
+      have := congrArg List.length h
+      simp only [List.length_drop, List.length_nil] at this
+      omega
+    have hemp : (p.drop (min (c.B - i - 11) p.length)).isEmpty = false := by
+      cases h : p.drop (min (c.B - i - 11) p.length) with
+      | nil => exact absurd h hdrop
+      | cons _ _ => rfl
+    have hpad : c.B - (i + 11 + min (c.B - i - 11) p.length) < 11 := by omega
+    have hneed' : need c 0 (p.drop (min (c.B - i - 11) p.length)) < 2 * p.length + 1 := by
+      unfold need
+      simp only [List.length_drop, hr]
+      split <;> omega
+    obtain ⟨C', kp', j', hC', hA', hC'len, hrd'⟩ :=
+      loop_more c hc (2 * p.length + 1) 0 (p.drop (min (c.B - i - 11) p.length)) (by omega) hneed' hdrop
+    rw [emitLoop, emitFragment_eq]
+    simp only [hpad, ↓reduceIte, hemp, Bool.false_eq_true]
+    refine ⟨mkChunk c (chunkType true (decide (p.length ≤ c.B - i - 11))) c.logNum (p.take (min (c.B - i - 11) p.length)) ++
+        zeros (c.B - (i + 11 + min (c.B - i - 11) p.length)) ++ C', kp', j', ?_, hA', ?_, ?_⟩
+    · rw [hC']; simp [List.append_assoc]
+    · simp only [List.length_append, mkChunk_length]; omega
+    · intro u pos R hs
+      have hle := Sync_le c pos i _ R hs
+      simp only [List.append_assoc] at hs
+      rw [readRecord, nextChunk_deffuel c hc, frag_read c hc true pos i p _ R hi hs]
+      simp only [hlast, decide_false, Bool.false_eq_true, ↓reduceIte]
+      have hsync := (Sync_after_frag c pos i (min (c.B - i - 11) p.length) (C' ++ u) hle (by omega)).1 hpad
+      simp only [List.length_append, mkChunk_length, hlen, zeros_length]
+      rw [hrd' u (p.take (min (c.B - i - 11) p.length)) _ _ _ hsync
+        (by simp only [RAt, List.length_append, zeros_length]; omega)]
+      simp only [List.take_append_drop]
+      congr 3
+      omega
+
 end Juno.C14.Chunk
